@@ -75,11 +75,13 @@ pub fn record_input(files: &[(String, String)])
 {
 	if let Ok(path) = std::env::var("PV_RECORD_INPUT")
 	{
-		let mut text = String::new();
-		for (n, s) in files
-		{
-			text.push_str(&format!("==== {}\n{}\n", n, s));
-		}
+		let text = serde_json::to_string(
+			&files
+				.iter()
+				.map(|(n, s)| serde_json::json!({"file": n, "source": s}))
+				.collect::<Vec<_>>(),
+		)
+		.unwrap_or_default();
 		let _ = std::fs::write(path, text);
 	}
 }
